@@ -1332,10 +1332,41 @@ func runC09CycleStart(c *Ctx) {
 		c.bad(construct, report.Pos(), "the cycle is not reported at the position of a job node")
 		return
 	}
+	// the maps handed to collectCycle in this function: the jobs of the cycle
+	cycleMap := map[ssa.Value]bool{}
+	for _, cc := range findCalls(fn, "collectCycle") {
+		for _, a := range cc.Common().Args {
+			if typeStr(a.Type()) == "map[*jobNode]*jobNode" {
+				cycleMap[a] = true
+			}
+		}
+	}
+	// the choice may be made here or in a helper that gets the map: then the helper's result is what is examined, with its
+	// parameter standing for the map
+	where := fn
+	if call, ok := base.(*ssa.Call); ok {
+		if g := staticCallee(&call.Call); g != nil && inModule(g) && g.Blocks != nil {
+			inner := map[ssa.Value]bool{}
+			for i, a := range call.Call.Args {
+				if cycleMap[a] && i < len(g.Params) {
+					inner[g.Params[i]] = true
+				}
+			}
+			var ret ssa.Value
+			for _, b := range g.Blocks {
+				if r, ok := b.Instrs[len(b.Instrs)-1].(*ssa.Return); ok && len(r.Results) == 1 {
+					ret = r.Results[0]
+				}
+			}
+			if ret != nil && len(inner) > 0 {
+				where, base, cycleMap = g, ret, inner
+			}
+		}
+	}
 	ph, isPhi := base.(*ssa.Phi)
 	usesIsBefore := false
 	if isPhi {
-		for _, call := range findCalls(fn, "(*Pos).IsBefore") {
+		for _, call := range findCalls(where, "(*Pos).IsBefore") {
 			if blockInCycle(call.Block()) {
 				usesIsBefore = true
 			}
@@ -1344,7 +1375,7 @@ func runC09CycleStart(c *Ctx) {
 	// the candidates that are compared are the keys of the map collectCycle filled (the jobs of the cycle), nothing else
 	overCycle := false
 	if isPhi {
-		for _, call := range findCalls(fn, "(*Pos).IsBefore") {
+		for _, call := range findCalls(where, "(*Pos).IsBefore") {
 			if !blockInCycle(call.Block()) {
 				continue
 			}
@@ -1361,12 +1392,8 @@ func runC09CycleStart(c *Ctx) {
 			if !ok || typeStr(rg.X.Type()) != "map[*jobNode]*jobNode" {
 				continue
 			}
-			for _, cc := range findCalls(fn, "collectCycle") {
-				for _, a := range cc.Common().Args {
-					if a == rg.X {
-						overCycle = true
-					}
-				}
+			if cycleMap[rg.X] {
+				overCycle = true
 			}
 		}
 	}
